@@ -85,9 +85,27 @@ StepMap(e) ==
            "lenient_resolver_earlier_or_shifted_forward_by_gap")
   /\ Check(e.back_ok, "instant_rendered_in_zone_maps_back_to_itself")
 
+\* start of day: the earliest instant whose local date (in the zone) is the given day
+StepSod(e) ==
+  LET w == Win(e)
+      mid == <<e.day, 0, 0>>
+      \* earliest instant of interval k whose local day is e.day (if any)
+      cand(k) == LET pre == PreImage(w[k], mid) IN IF Lt3(pre, w[k].start) THEN w[k].start ELSE pre
+      ok(k) == Lt3(cand(k), w[k].end) /\ LocalOf(w[k], cand(k))[1] = e.day
+      ks == {k \in 1..Len(w) : ok(k)}
+  IN
+  /\ UNCHANGED <<zid, prev, hasPrev, segFrom, offs>>
+  /\ Check(/\ (w[1].start = TMin \/ Le3(Add3(w[1].start, OfSeconds(64800)), mid))
+           /\ (w[Len(w)].end = TMax \/ Lt3(Add3(mid, <<1, 0, 0>>), Sub3(w[Len(w)].end, OfSeconds(64800)))), "machinery_window_covers_local_time")
+  /\ IF ks = {}
+     THEN Check(e.res = SkippedT, "start_of_day_of_a_skipped_day_raises")
+     ELSE LET k0 == CHOOSE k \in ks : \A j \in ks : k <= j IN
+          /\ Check(e.res = cand(k0), "start_of_day_is_earliest_instant_carrying_that_date")
+          /\ Check(e.res_cal = e.cal /\ e.res_day = e.day, "start_of_day_keeps_date_and_calendar")
+
 Next == /\ l <= Len(Events) /\ l' = l + 1
         /\ LET e == Events[l] IN
            CASE e.op = "zone" -> StepZone(e) [] e.op = "seg" -> StepSeg(e) [] e.op = "iv" -> StepIv(e)
-             [] e.op = "endz" -> StepEndz(e) [] e.op = "map" -> StepMap(e)
+             [] e.op = "endz" -> StepEndz(e) [] e.op = "map" -> StepMap(e) [] e.op = "sod" -> StepSod(e)
 Spec == Init /\ [][Next]_zvars
 =============================================================================
